@@ -164,6 +164,16 @@ class LiaDomain:
                             return rt
                         _, rl = self.divmod_pow2(st, a, lowz)
                         return rt - rl
+            for a, b in ((x, y), (y, x)):
+                m = self.concrete(b)
+                if m is not None and m > 0 and self.concrete(a) is None:
+                    # a is 0 or all ones (a select mask): a & m is 0 or m
+                    full = (1 << width) - 1
+                    st.oblige("andmask", site, mk_or(("=", a, Poly.const(0)), ("=", a, Poly.const(full))), "operand of & with a constant is 0 or all ones")
+                    r = self.fresh(st, "and", width, signed, 0, m)
+                    st.hyps.append(mk_implies(("=", a, Poly.const(0)), ("=", r, Poly.const(0))))
+                    st.hyps.append(mk_implies(("=", a, Poly.const(full)), ("=", r, Poly.const(m))))
+                    return r
             raise Unsupported("lia: & with non-mask operand")
         if op == "|":
             # a | b = a + b when a is a multiple of 2^k and 0 <= b < 2^k
@@ -341,8 +351,9 @@ class LiaDomain:
         return r
 
     # ---- SMT emission
-    def emit(self, decl, bounds, hyps, goal, slice_hyps=True):
-        """returns SMT-LIB text asserting hyps and (not goal)."""
+    def emit(self, decl, bounds, hyps, goal, slice_hyps=True, nia=False):
+        """returns SMT-LIB text asserting hyps and (not goal).  nia=True keeps products of atoms as real
+        products (QF_NIA) instead of linearising them -- used for the few lemmas about whole products."""
         hyps = list(hyps)
         # as a hypothesis cong0(d, m) is d = m*k for a fresh k
         newh = []
@@ -362,6 +373,7 @@ class LiaDomain:
         if slice_hyps:
             hyps = slice_context(hyps, goal)
         mons = {}
+        niaatoms = set()
 
         def pterm(p):
             if not isinstance(p, Poly):
@@ -375,6 +387,9 @@ class LiaDomain:
                     continue
                 if len(m) == 1:
                     v = "|%s|" % m[0]
+                elif nia:
+                    v = "(* %s)" % " ".join("|%s|" % a for a in m)
+                    niaatoms.update(m)
                 else:
                     v = "|m!%s|" % "*".join(m)
                     mons[m] = v
@@ -418,7 +433,8 @@ class LiaDomain:
             used |= formula_atoms(h)
         for m in mons:
             used |= set(m)
-        lines = ["(set-logic QF_LIA)"]
+        used |= niaatoms
+        lines = ["(set-logic QF_NIA)" if nia else "(set-logic QF_LIA)"]
         alld = dict(decl)
         alld.update(extra_decl)
         for a in sorted(used):
@@ -478,6 +494,8 @@ def formula_atoms(f):
 def slice_context(hyps, goal):
     """cone of influence: keep hypotheses transitively sharing a variable with the goal"""
     want = set(formula_atoms(goal))
+    if not want:
+        return list(hyps)   # `false` as a goal (unreachability): every hypothesis matters
     hv = [formula_atoms(h) for h in hyps]
     keep = [False] * len(hyps)
     changed = True
